@@ -99,7 +99,17 @@ pub fn run_cfg(cfg: &SysCfg, o: &RunOpts) -> CfgResult {
         if matches!(r.outcome, Outcome::Hang(_)) {
             hang_execs += 1;
         }
-        for v in &r.violations {
+        let mut vs: Vec<sh::Violation> = r.violations.clone();
+        if cfg.has_foreach() {
+            // for_each / fold running on a racy wrapped iterator: "exactly once" cannot be promised either
+            for v in r.violations.iter().filter(|v| v.prop == "C07") {
+                let mut w = v.clone();
+                w.prop = "C12".to_string();
+                w.msg = format!("[{}] {}", cfg.cli(), w.msg);
+                vs.push(w);
+            }
+        }
+        for v in &vs {
             if o.expect_hang && v.class == "hang" {
                 continue;
             }
